@@ -246,8 +246,11 @@ fn boundary(rep: &mut Report, k: &Kind) {
     }
 }
 
-fn hostile(rep: &mut Report, number: u16, sat_bits: usize, sigs: &[(u8, u8, char)], hdr_bits: usize) {
-    // satellite count 63, per-satellite count 31, recognised ids until the payload is full
+/// hostile 1059/1065 frames: satellite count 63, per-satellite count 31, ids recognised /
+/// repeated / any, for a range of payload lengths
+pub fn hostile_frames(number: u16) -> Vec<Vec<u8>> {
+    let (sat_bits, sigs, hdr_bits): (usize, &[(u8, u8, char)], usize) = if number == 1059 { (6, GPS_BIAS_SIGS, 20 + 4 + 1 + 4 + 16 + 4) } else { (5, GLO_BIAS_SIGS, 17 + 4 + 1 + 4 + 16 + 4) };
+    let mut out = vec![];
     for plen in [1023usize, 1022, 1000, 980, 950, 900, 800, 600, 400, 100, 40, 12, 9] {
         for sig_mode in 0..3 {
             let mut w = BitW::new();
@@ -273,24 +276,31 @@ fn hostile(rep: &mut Report, number: u16, sat_bits: usize, sigs: &[(u8, u8, char
                 }
             }
             let p = w.to_bytes_len(plen.max((w.len() + 7) / 8))[..plen].to_vec();
-            let f = make_frame(&p);
-            rep.states += 1;
-            rep.transitions += 1;
-            rep.traces += 1;
-            let r = catch(|| MessageFrame::new(&f).map(|fr| fr.get_message()).unwrap_or(Message::Corrupt));
-            match r {
-                Err(pn) => rep.violation("C16", format!("{}:hostile-panic:{}", number, pn.location), format!("msg {}: hostile frame (63 satellites x 31 biases, payload {} bytes) panics: {}", number, plen, pn.message), plen as u64, json!({"kind":"frame_decode","frame":hex(&f)})),
-                Ok(m) => {
-                    let n = match &m {
-                        Message::Msg1059(t) => Some(t.biases.len()),
-                        Message::Msg1065(t) => Some(t.biases.len()),
-                        _ => None,
-                    };
-                    match n {
-                        Some(n) if n > 390 => rep.violation("C16", format!("{}:hostile-too-many", number), format!("msg {}: decoded {} entries", number, n), plen as u64, json!({"kind":"frame_decode","frame":hex(&f)})),
-                        Some(_) => rep.outcome("hostile-typed-within-capacity"),
-                        None => rep.outcome("hostile-corrupt"),
-                    }
+            out.push(make_frame(&p));
+        }
+    }
+    out
+}
+
+fn hostile(rep: &mut Report, number: u16) {
+    for f in hostile_frames(number) {
+        let plen = f.len() - 6;
+        rep.states += 1;
+        rep.transitions += 1;
+        rep.traces += 1;
+        let r = catch(|| MessageFrame::new(&f).map(|fr| fr.get_message()).unwrap_or(Message::Corrupt));
+        match r {
+            Err(pn) => rep.violation("C16", format!("{}:hostile-panic:{}", number, pn.location), format!("msg {}: hostile frame (63 satellites x 31 biases, payload {} bytes) panics: {}", number, plen, pn.message), plen as u64, json!({"kind":"frame_decode","frame":hex(&f)})),
+            Ok(m) => {
+                let n = match &m {
+                    Message::Msg1059(t) => Some(t.biases.len()),
+                    Message::Msg1065(t) => Some(t.biases.len()),
+                    _ => None,
+                };
+                match n {
+                    Some(n) if n > 390 => rep.violation("C16", format!("{}:hostile-too-many", number), format!("msg {}: decoded {} entries", number, n), plen as u64, json!({"kind":"frame_decode","frame":hex(&f)})),
+                    Some(_) => rep.outcome("hostile-typed-within-capacity"),
+                    None => rep.outcome("hostile-corrupt"),
                 }
             }
         }
@@ -311,9 +321,9 @@ pub fn c16(ctx: &Ctx) -> (Report, Meta) {
             small_scope(&mut rep, k, tier);
             boundary(&mut rep, k);
             if i == 0 {
-                hostile(&mut rep, 1059, 6, GPS_BIAS_SIGS, 20 + 4 + 1 + 4 + 16 + 4);
+                hostile(&mut rep, 1059);
             } else {
-                hostile(&mut rep, 1065, 5, GLO_BIAS_SIGS, 17 + 4 + 1 + 4 + 16 + 4);
+                hostile(&mut rep, 1065);
             }
         } else {
             // 1230: all 15 non-empty signal subsets in all permutations, + empty
